@@ -143,8 +143,15 @@ def register(pid):
     return deco
 
 def finalize(ctx):
-    """if an oracle produced a concrete failing input, the bare correspondence breaks are redundant"""
-    if any(v["kind"] == "oracle" for v in ctx.violations):
+    """if an oracle produced a concrete failing input (that is not a listed known finding), the bare
+    correspondence breaks are redundant: the failing input is the replay"""
+    try:
+        known = [k for k in json.load(open(os.path.join(rta.VERIF, "known_findings.json"))).get("findings", [])
+                 if k.get("property") == ctx.pid and k.get("status") == "known"]
+    except Exception:
+        known = []
+    real = [v for v in ctx.violations if v["kind"] == "oracle" and not any(matches_known(k, v) for k in known)]
+    if real:
         ctx.violations = [v for v in ctx.violations if v["kind"] != "corr"]
 
 # ============================================================================= C08
@@ -193,6 +200,10 @@ class C08(Prop):
                 for lim in (dv[1] - 1, dv[1], dv[1] + 1):
                     if lim >= 1:
                         qs2.append(["searchoff", sb, 0, lim, w]); meta2.append((sb, w, 0, lim, tab[1]))
+        # the known corner limit = 0 (witness of known finding C08-limit0) and its neighbours
+        for wl in ([0], [0, 1], [1], [2, 3]):
+            w0 = ["wtable", wl, 0, 1]
+            qs2.append(["searchoff", ["dedicated"], 0, 0, w0]); meta2.append((["dedicated"], w0, 0, 0, tuple(range(0, 8))))
         rows2 = ctx.run(qs2)
         # max_response_time
         qs3 = []
@@ -214,7 +225,7 @@ class C08(Prop):
                 ctx.dist("search_outcome", "ok" if exp is not None else "err")
                 ctx.oracle("least_solution_by_linear_scan", good,
                            "search_with_offset (%s build) = %s but the least r <= limit with sbf(off+r) >= w(max(r,1)) is %s" % (name, rta.show(iv), exp),
-                           [q, ["sbftab", sb, off + limit + 1]], cls="oracle:least_solution")
+                           [q, ["sbftab", sb, off + limit + 1]], cls="oracle:least_solution" + ("_limit0" if limit == 0 else ""))
         for (q, dv, rv, mv) in rows3:
             rs = q[1]
             errs = [r for r in rs if r[0] == "err"]
@@ -321,3 +332,503 @@ class C09(Prop):
                                "%s: service_time(%d) = %s but the least t with provided_service(t) >= %d is %d (Q=%d D=%d P=%d)" % (m[0], d, rta.show(iv), d, least, Q, D, P),
                                [q, ["sbftab", ["constrained_s", Q, D, P], 6 * P]], cls="oracle:inverse")
         finalize(ctx)
+
+# ============================================================================= helpers: admissible event sequences
+def events_for(ab, rng, horizon, adversarial=True):
+    """an event sequence (sorted list of times) admissible for the arrival-bound expression"""
+    k = ab[0]
+    if k == "periodic":
+        T = ab[1]; t0 = 0 if adversarial else rng.randint(0, T)
+        return list(range(t0, horizon, T))
+    if k == "sporadic":
+        T, J = ab[1], ab[2]
+        arr = []; t = 0
+        while t < horizon + J:
+            arr.append(t); t += T if adversarial else T + rng.choice([0, 0, rng.randint(0, T)])
+        # adversarial: the first arrivals are delayed so that they are all released together at time J
+        if adversarial: jit = [max(0, J - a) for a in arr]
+        else: jit = [rng.randint(0, J) for _ in arr]
+        return sorted(a + j for a, j in zip(arr, jit))
+    if k == "never": return []
+    if k in ("curve", "extrap"):
+        d = ab[1][1]
+        es = [0]
+        while es[-1] < horizon and len(es) < 4000:
+            n = len(es)
+            nxt = max((es[n - i - 1] + d[i]) for i in range(min(len(d), n)))
+            if not adversarial: nxt += rng.choice([0, 0, 1, rng.randint(0, 5)])
+            es.append(nxt)
+            if len(es) > 50 and es[-1] == es[-50]: break
+        return es
+    if k in ("propagated", "jitter"):
+        J = ab[1]
+        inner = events_for(ab[2], rng, horizon + J, adversarial)
+        if adversarial: jit = [max(0, min(J, (inner[0] + J) - e)) for e in inner]
+        else: jit = [rng.randint(0, J) for _ in inner]
+        return sorted(e + j for e, j in zip(inner, jit))
+    if k == "sum":
+        out = []
+        for x in ab[1]: out += events_for(x, rng, horizon, adversarial)
+        return sorted(out)
+    if k == "sum2":
+        return sorted(events_for(ab[1], rng, horizon, adversarial) + events_for(ab[2], rng, horizon, adversarial))
+    raise ValueError("no admissible sequences defined for " + k)
+
+def max_window_counts(es, H):
+    """m[d] = max number of events in any window [t, t+d), d = 0..H (windows may start anywhere)"""
+    es = sorted(es); m = [0] * (H + 1)
+    n = len(es)
+    for d in range(1, H + 1):
+        best = 0; j = 0
+        for i in range(n):
+            while j < n and es[j] < es[i] + d: j += 1
+            if j - i > best: best = j - i
+        m[d] = best
+    return m
+
+def ab_leafs(ab, kinds):
+    return gen.ab_has(ab, lambda a: a[0] in kinds)
+
+# ============================================================================= C10
+@register("C10")
+class C10(Prop):
+    rule = ("arrival bounds of depth <= 2 over periodic/sporadic(jitter buckets 0,<T,>=T)/never/delta-min curves/extrapolating curves/"
+            "propagated/clone_with_jitter/sums; queried as tables up to a horizon; oracle = window counts of generated admissible "
+            "event sequences (adversarial 'as early as possible, first event maximally delayed' and random); non-trivial = distinct "
+            "query with a non-zero table")
+    proof_status = "see coverage.theorems"
+    def run(self, ctx):
+        rng = ctx.rng
+        kinds = ["periodic", "sporadic", "never", "curve", "extrap", "propagated", "jitter", "sum", "sum2"]
+        qs = []; meta = []
+        for _ in range(ctx.scale(260, 3000)):
+            ab = gen.gen_ab(rng, rng.choice([0, 1, 1, 2]), kinds, True, True)
+            H = rng.choice([rng.randint(1, 40), rng.randint(20, 120)])
+            qs.append(["natab", ab, H]); meta.append(("tab", ab, H))
+            qs.append(["na", ab, rng.choice([rng.randint(0, 400), rng.randint(100, 3000)]) if not ab_leafs(ab, ("extrap",)) else rng.randint(0, 300)]); meta.append(("na", ab, H))
+            a, b = rng.randint(0, 20), rng.randint(0, 20)
+            qs.append(["natab", ["jitter", b, ["jitter", a, ab]], H]); meta.append(("jj", ab, H, a, b))
+            qs.append(["natab", ["jitter", a + b, ab], H]); meta.append(("j", ab, H, a, b))
+        rows = ctx.run(qs)
+        ctx.correspond(rows)
+        for i in range(0, len(rows), 4):
+            (q, dv, rv, mv) = rows[i]; ab, H = meta[i][1], meta[i][2]
+            if not dv or dv[0] != "l": continue
+            tab = dv[1]
+            gen.ab_kind_hist(ab, ctx.distribution.setdefault("ab_kinds", {}))
+            ctx.oracle("zero_and_monotone", tab[0] == 0 and all(tab[j] <= tab[j + 1] for j in range(len(tab) - 1)),
+                       "number_arrivals is not 0 at 0 / not non-decreasing: %s" % (tab,), [q], cls="oracle:na_shape")
+            for adv in (True, False):
+                es = events_for(ab, rng, 3 * H + 10, adv)
+                m = max_window_counts(es, H)
+                bad = [d for d in range(H + 1) if m[d] > tab[d]]
+                ctx.oracle("admissible_sequences_are_covered", not bad,
+                           "an admissible event sequence has %d events in a window of length %d but number_arrivals says %d; events=%s"
+                           % ((m[bad[0]], bad[0], tab[bad[0]], es[:40]) if bad else (0, 0, 0, [])), [q], cls="oracle:undercount",
+                           extra=dict(events=es[:200]))
+                if adv and ab[0] in ("periodic", "sporadic"):
+                    ctx.oracle("sporadic_bound_attained", m == list(tab), "the periodic/sporadic bound is not attained by the maximal-rate sequence: max counts %s vs bound %s" % (m, tab), [q], cls="oracle:not_tight")
+            if ab[0] in ("periodic", "sporadic"):
+                sub = all(tab[x + y] <= tab[x] + tab[y] for x in range(len(tab)) for y in range(len(tab) - x))
+                ctx.oracle("subadditive", sub, "periodic/sporadic bound is not sub-additive: %s" % (tab,), [q], cls="oracle:subadditive")
+            jj, j = rows[i + 2][1], rows[i + 3][1]
+            ctx.oracle("jitter_composes", jj == j, "adding jitter %d then %d differs from adding %d: %s vs %s" % (meta[i + 2][3], meta[i + 2][4], meta[i + 2][3] + meta[i + 2][4], rta.show(jj), rta.show(j)),
+                       [rows[i + 2][0], rows[i + 3][0]], cls="oracle:jitter_compose")
+        finalize(ctx)
+
+# ============================================================================= C11
+def plateau_curve(ab): return gen.ab_plateau(ab)
+def has_prefix(ab): return ab_leafs(ab, ("prefix",))
+def rb_abs(rb):
+    if rb[0] == "rbf": return [rb[1]]
+    if rb[0] == "boxed": return rb_abs(rb[1])
+    out = []
+    for x in rb[1]: out += rb_abs(x)
+    return out
+
+@register("C11")
+class C11(Prop):
+    rule = ("steps_iter of arrival bounds (all implementors incl. plateau-ended curves and ArrivalCurvePrefix) and request bounds "
+            "(positive costs) cut at a horizon, against the brute-force comparison of consecutive values of the implementation's own "
+            "bound; non-trivial = distinct query with a non-empty step list")
+    proof_status = "see coverage.theorems"
+    def run(self, ctx):
+        rng = ctx.rng
+        qs = []; meta = []
+        for _ in range(ctx.scale(300, 4000)):
+            ab = gen.gen_ab(rng, rng.choice([0, 1, 1, 2]), families.AB_ALL, True, True)
+            if rng.random() < 0.06:
+                d = gen.gen_dmin(rng, True, True); ab = ["curve", ["dmin", d + [d[-1]]]]
+            H = rng.choice([rng.randint(0, 30), rng.randint(20, 150)])
+            qs += [["steps", ab, H, 100000], ["natab", ab, H], ["bfsteps", ab, H]]
+            meta += [("ab", ab, H)] * 3
+        for _ in range(ctx.scale(120, 1500)):
+            rb = gen.gen_rb(rng, rng.choice([0, 1, 2]), False, families.AB_ANALYSIS + ["never"], True)
+            H = rng.randint(0, 120)
+            qs += [["rbsteps", rb, H, 100000], ["sntab", rb, H], ["stepoff", rb, H, 100000]]
+            meta += [("rb", rb, H)] * 3
+        rows = ctx.run(qs)
+        ctx.correspond(rows)
+        for i in range(0, len(rows), 3):
+            kind, obj, H = meta[i]
+            st, tab = rows[i][1], rows[i + 1][1]
+            if not st or not tab or st[0] != "l" or tab[0] != "l": continue
+            steps, tab = list(st[1]), tab[1]
+            expect = [d for d in range(1, H + 1) if tab[d - 1] < tab[d]]
+            abs_ = [obj] if kind == "ab" else rb_abs(obj)
+            cls = "oracle:steps"
+            if any(plateau_curve(a) for a in abs_): cls = "oracle:steps:plateau_curve"
+            if any(has_prefix(a) for a in abs_): cls = "oracle:steps:prefix"
+            ctx.dist("steps_class", cls)
+            ctx.oracle("steps_are_exactly_the_increase_points", steps == expect,
+                       "steps_iter yields %s but the bound increases exactly at %s" % (steps[:40], expect[:40]), [rows[i][0], rows[i + 1][0]], cls=cls)
+            if kind == "ab":
+                bf = rows[i + 2][1]
+                ctx.oracle("brute_force_steps_iter", bf == ("l", tuple(expect)), "brute_force_steps_iter yields %s, expected %s" % (rta.show(bf), expect[:40]), [rows[i + 2][0]], cls="oracle:bfsteps")
+            else:
+                so = rows[i + 2][1]
+                if so and so[0] == "l":
+                    exp_off = [d - 1 for d in expect if d - 1 < H]
+                    ctx.oracle("step_offsets", list(so[1]) == exp_off, "step_offsets yields %s, expected %s" % (list(so[1])[:40], exp_off[:40]), [rows[i + 2][0]], cls=cls.replace("steps", "stepoff", 1))
+        finalize(ctx)
+
+def kf_cls_prefix(prefix):
+    return lambda v: v["kind"] == "oracle" and str(v.get("cls", "")).startswith(prefix)
+KNOWN_PREDICATES["C11-plateau-curve"] = lambda v: v.get("cls") in ("oracle:steps:plateau_curve", "oracle:stepoff:plateau_curve")
+KNOWN_PREDICATES["C11-prefix-zero-step"] = lambda v: v.get("cls") in ("oracle:steps:prefix", "oracle:stepoff:prefix")
+
+# ============================================================================= C16
+@register("C16")
+class C16(Prop):
+    rule = ("request bounds over all arrival kinds x {scalar, multiframe, curve, extrapolating curve} costs, nested/boxed/sliced "
+            "aggregates of depth <= 2; oracle recomputes every method from the components' own outputs; non-trivial = distinct "
+            "query with non-zero result")
+    proof_status = "see coverage.theorems"
+    def run(self, ctx):
+        rng = ctx.rng
+        qs = []; meta = []
+        for _ in range(ctx.scale(150, 2000)):
+            rb = gen.gen_rb(rng, rng.choice([0, 1, 2]), False, families.AB_ANALYSIS + ["never"], True)
+            d = rng.choice([rng.randint(0, 20), rng.randint(10, 120)])
+            n = rng.randint(0, 8)
+            base = len(qs)
+            qs += [["sn", rb, d], ["jc", rb, d], ["lw", rb, d], ["snn", rb, d, n], ["snn", rb, d, n + 1], ["snn", rb, d, 10000]]
+            comps = rb[1] if rb[0] in ("agg", "slice") else []
+            if comps:
+                qs.append(["snc", rb, d, n])
+                for c in comps:
+                    qs += [["sn", c, d], ["jc", c, d], ["lw", c, d], ["snn", c, d, n]]
+            else:
+                r = rb[1] if rb[0] == "boxed" else rb
+                qs += [["na", r[1], d], ["cost", r[2], 0], ["jobcosts", r[2], 0]]
+            meta.append((base, rb, d, n, len(comps)))
+        # resolve the single-RBF cases in a second pass (cost of na jobs)
+        rows = ctx.run(qs)
+        qs2 = []; back = []
+        for (base, rb, d, n, nc) in meta:
+            if nc == 0:
+                r = rb[1] if rb[0] == "boxed" else rb
+                nav = rows[base + 6][1]
+                if nav and nav[0] == "n":
+                    qs2 += [["cost", r[2], nav[1]], ["jobcosts", r[2], nav[1]], ["least", r[2], nav[1]]]; back.append(base)
+        rows2 = ctx.run(qs2)
+        ctx.correspond(rows + rows2)
+        single = {b: rows2[3 * i: 3 * i + 3] for i, b in enumerate(back)}
+        for (base, rb, d, n, nc) in meta:
+            val = lambda k: rows[base + k][1]
+            if any(val(k) is None or val(k)[0] not in ("n", "l") for k in range(6)): continue
+            snv, jcv, lwv, snn_n, snn_n1, snn_all = val(0)[1], list(val(1)[1]), val(2)[1], val(3)[1], val(4)[1], val(5)[1]
+            Q = [rows[base][0], rows[base + 1][0]]
+            ctx.oracle("job_costs_sum_to_service_needed", sum(jcv) == snv, "job_cost_iter sums to %d but service_needed is %d" % (sum(jcv), snv), Q, cls="oracle:jc_sum")
+            ctx.oracle("least_wcet_below_every_job", (not jcv) or lwv <= min(jcv), "least_wcet_in_interval %d exceeds a job cost of %s" % (lwv, jcv[:30]), [rows[base + 2][0]] + Q, cls="oracle:lw")
+            top = sorted(jcv, reverse=True)
+            ctx.oracle("n_largest_jobs", snn_n == sum(top[:n]) and snn_n1 == sum(top[:n + 1]) and snn_all == snv and snn_n <= snn_n1 <= snv,
+                       "service_needed_by_n_jobs(%d)=%d, (%d)=%d, (all)=%d vs job costs %s" % (n, snn_n, n + 1, snn_n1, snn_all, top[:20]), [rows[base + 3][0], rows[base + 1][0]], cls="oracle:snn")
+            if nc:
+                o = base + 7
+                comp = [(rows[o + 4 * j][1], rows[o + 4 * j + 1][1], rows[o + 4 * j + 2][1], rows[o + 4 * j + 3][1]) for j in range(nc)]
+                if all(all(x and x[0] in ("n", "l") for x in c) for c in comp) and val(6) and val(6)[0] == "n":
+                    ctx.oracle("aggregate_is_sum_of_components", snv == sum(c[0][1] for c in comp), "Aggregate service_needed %d != sum of components %s" % (snv, [c[0][1] for c in comp]), Q, cls="oracle:agg_sum")
+                    alljobs = sorted(x for c in comp for x in c[1][1])
+                    ctx.oracle("aggregate_jobs_are_component_jobs", sorted(jcv) == alljobs, "Aggregate job costs %s != union of component job costs %s" % (sorted(jcv)[:30], alljobs[:30]), Q, cls="oracle:agg_jc")
+                    ctx.oracle("per_component_restriction", val(6)[1] == sum(c[3][1] for c in comp), "per-component restricted demand %d != sum of components' %s" % (val(6)[1], [c[3][1] for c in comp]), [rows[base + 6][0]], cls="oracle:snc")
+            elif base in single:
+                c, j, l = [x[1] for x in single[base]]
+                if c and j and l and c[0] == "n" and j[0] == "l":
+                    ctx.oracle("rbf_is_cost_of_arrivals", snv == c[1] and jcv == list(j[1]) and lwv == l[1],
+                               "RBF: service_needed=%d job costs=%s least=%d but cost model says cost=%d jobs=%s least=%d" % (snv, jcv[:20], lwv, c[1], list(j[1])[:20], l[1]), Q, cls="oracle:rbf_compose")
+        finalize(ctx)
+
+# ============================================================================= C14
+def run_maxima(costs, n):
+    if n == 0: return 0
+    if n > len(costs): return None
+    return max(sum(costs[i:i + n]) for i in range(len(costs) - n + 1))
+
+@register("C14")
+class C14(Prop):
+    rule = ("cost models (scalar, multiframe, cumulative curves, extrapolating curves), cost traces of length <= 16 with max_n <= 6 "
+            "incl. traces whose expensive runs lie at the end, query histories on shared extrapolating curves; non-trivial = distinct "
+            "query with non-zero result")
+    proof_status = "see coverage.theorems"
+    def run(self, ctx):
+        rng = ctx.rng
+        qs = []; meta = []
+        for _ in range(ctx.scale(150, 2000)):
+            cm = gen.gen_cm(rng)
+            N = rng.randint(1, 30)
+            base = len(qs)
+            qs += [["cost", cm, 0], ["jobcosts", cm, N]] + [["cost", cm, k] for k in range(1, N + 1)] + [["least", cm, k] for k in (1, max(1, N // 2), N)]
+            meta.append(("cm", base, cm, N))
+        for _ in range(ctx.scale(150, 2000)):
+            costs = [rng.randint(1, 12) for _ in range(rng.randint(1, 16))]
+            if rng.random() < 0.4: costs[-1] = rng.randint(10, 30)       # expensive run at the very end
+            k = rng.randint(1, 6)
+            w = ["cfrom_trace", costs, k]
+            N = len(costs) + rng.randint(0, 6)
+            base = len(qs)
+            qs += [["wcurvevec", w]] + [["cost", ["ccurve", w], n] for n in range(0, N + 1)]
+            meta.append(("trace", base, costs, k, N))
+            if len(costs) >= 3 and k >= 3:
+                E = rng.randint(1, 14)
+                base = len(qs)
+                qs += [["wcurvevec", ["cextrapolate", w, E]]] + [["cost", ["ccurve", ["cextrapolate", w, E]], n] for n in range(0, N + 1)] \
+                      + [["cost", ["cextrap", w], n] for n in range(0, N + 1)]
+                meta.append(("extrap", base, costs, k, N, E))
+        for _ in range(ctx.scale(80, 1000)):
+            q = families.q_chist(rng)[0]
+            base = len(qs); qs.append(q)
+            w = q[1]
+            fresh = []
+            for op in q[2]:
+                if op[0] == "hcost": fresh.append(["cost", ["cextrap", w], op[2]])
+                elif op[0] == "hleast": fresh.append(["least", ["cextrap", w], op[2]])
+                elif op[0] == "hjc": fresh.append(["jobcosts", ["cextrap", w], op[2]])
+            qs += fresh
+            meta.append(("hist", base, q, len(fresh)))
+        rows = ctx.run(qs)
+        ctx.correspond(rows)
+        for m in meta:
+            if m[0] == "cm":
+                _, base, cm, N = m
+                v = [rows[base + i][1] for i in range(2 + N + 3)]
+                if any(x is None or x[0] not in ("n", "l") for x in v): continue
+                c0, jobs, costs = v[0][1], list(v[1][1]), [x[1] for x in v[2:2 + N]]
+                Q = [rows[base + 1][0]]
+                ok = c0 == 0 and all(costs[i] <= costs[i + 1] for i in range(N - 1)) and all(sum(jobs[:k]) == costs[k - 1] for k in range(1, N + 1))
+                ctx.oracle("cost_is_monotone_sum_of_job_costs", ok, "cost_of_jobs(0)=%d, cost_of_jobs(1..)=%s, job_cost_iter=%s" % (c0, costs[:20], jobs[:20]), Q + [rows[base + 2][0]], cls="oracle:cost_sum")
+                for (kk, lv) in zip((1, max(1, N // 2), N), v[2 + N:]):
+                    ctx.oracle("least_wcet_below_items", lv[1] <= min(jobs[:kk]), "least_wcet(%d)=%d exceeds an item of %s" % (kk, lv[1], jobs[:kk]), Q, cls="oracle:least")
+            elif m[0] == "trace":
+                _, base, costs, k, N = m
+                vals = [rows[base + 1 + n][1] for n in range(N + 1)]
+                if any(x is None or x[0] != "n" for x in vals): continue
+                for n in range(0, len(costs) + 1):
+                    rm = run_maxima(costs, n)
+                    ctx.dist("trace_run", "beyond_prefix" if n > k else "inside_prefix")
+                    ctx.oracle("trace_runs_are_bounded", vals[n][1] >= rm,
+                               "trace %s, max_n=%d: a run of %d consecutive jobs costs %d but cost_of_jobs(%d)=%d" % (costs, k, n, rm, n, vals[n][1]),
+                               [rows[base + 1 + n][0]], cls="oracle:trace_bound")
+                    if n <= k:
+                        ctx.oracle("trace_prefix_is_exact", vals[n][1] == rm, "trace %s max_n=%d: cost_of_jobs(%d)=%d but the maximum run is %d" % (costs, k, n, vals[n][1], rm), [rows[base + 1 + n][0]], cls="oracle:trace_exact")
+            elif m[0] == "extrap":
+                _, base, costs, k, N, E = m
+                ext = [rows[base + 1 + n][1] for n in range(N + 1)]
+                lazy = [rows[base + 1 + (N + 1) + n][1] for n in range(N + 1)]
+                vec = rows[base][1]
+                if any(x is None or x[0] != "n" for x in ext + lazy) or not vec or vec[0] != "l": continue
+                horizon = len(vec[1])
+                for n in range(0, len(costs) + 1):
+                    rm = run_maxima(costs, n)
+                    ctx.oracle("extrapolation_dominates_trace", ext[n][1] >= rm and lazy[n][1] >= rm,
+                               "trace %s max_n=%d extrapolate(%d): run of %d jobs costs %d, curve says %d / caching curve %d" % (costs, k, E, n, rm, ext[n][1], lazy[n][1]),
+                               [rows[base + 1 + n][0]], cls="oracle:extrap_dominates")
+                for n in range(0, min(N, horizon) + 1):
+                    ctx.oracle("eager_equals_lazy_within_horizon", ext[n][1] == lazy[n][1], "extrapolate(%d) and the caching curve disagree at n=%d: %d vs %d" % (E, n, ext[n][1], lazy[n][1]),
+                               [rows[base + 1 + n][0], rows[base + 1 + (N + 1) + n][0]], cls="oracle:extrap_eager_lazy")
+            elif m[0] == "hist":
+                _, base, q, nf = m
+                hv = rows[base][1]
+                fresh = [rows[base + 1 + i][1] for i in range(nf)]
+                if not hv or hv[0] != "l" or any(f is None or f[0] not in ("n", "l") for f in fresh): continue
+                exp = []
+                for f in fresh: exp += [f[1]] if f[0] == "n" else list(f[1])
+                ctx.oracle("history_independent", list(hv[1]) == exp, "query history answers %s differ from fresh answers %s" % (list(hv[1]), exp), [q], cls="oracle:cache_visible")
+        finalize(ctx)
+
+# ============================================================================= C12
+def trace_counts(trace, H):
+    return max_window_counts(trace, H)
+
+@register("C12")
+class C12(Prop):
+    rule = ("traces with bursts/simultaneous events (k+1 events never all simultaneous), prefix lengths 2..6, horizons far beyond the prefix; "
+            "conversions from periodic/sporadic/extrapolating/propagated sources via from_arrival_bound(_until), From impls, "
+            "ArrivalCurvePrefix::from_arrival_bound_until; delta_min_iter duality; non-trivial = distinct query with non-zero table")
+    proof_status = "see coverage.theorems"
+    def run(self, ctx):
+        rng = ctx.rng
+        qs = []; meta = []
+        for _ in range(ctx.scale(150, 2000)):
+            for _try in range(20):
+                tr = families.gen_trace(rng); K = rng.randint(2, 6)
+                d = gen.dmin_of_trace(tr, K)
+                if d and d[-1] > 0: break
+            else: continue
+            H = (tr[-1] - tr[0]) + rng.randint(2, 30)
+            base = len(qs)
+            qs += [["curvevec", ["from_trace", tr, K]], ["natab", ["curve", ["from_trace", tr, K]], H]]
+            meta.append(("trace", base, tr, K, H))
+        srcs = ["periodic", "sporadic", "extrap", "propagated", "jitter", "sum"]
+        for _ in range(ctx.scale(160, 2000)):
+            ab = gen.gen_ab(rng, rng.choice([0, 0, 1]), srcs, True, False)
+            H = rng.randint(20, 200)
+            r = rng.random()
+            if r < 0.3: conv = ["from_ab", ab, rng.randint(1, 10)]; how = "from_ab"
+            elif r < 0.6: conv = ["from_ab_until", ab, rng.randint(0, 60)]; how = "from_ab_until"
+            elif r < 0.7:
+                T = rng.randint(1, 30); ab = ["periodic", T]; conv = ["of_periodic", T]; how = "of_periodic"
+            elif r < 0.75:
+                T = rng.randint(5, 40); J = rng.choice([0, rng.randint(0, 2 * T)]); ab = ["sporadic", T, J]; conv = ["of_sporadic", T, J]; how = "of_sporadic"; H = rng.randint(20, 120)
+            else:
+                hz = rng.randint(1, 60); conv = None; how = "prefix_from"
+            base = len(qs)
+            if conv is not None:
+                qs += [["curvevec", conv], ["natab", ["curve", conv], H], ["natab", ab, H]]
+                meta.append(("conv", base, ab, how, H))
+            else:
+                p = ["prefix_from", ab, hz]
+                qs += [["prefixsteps", p], ["natab", ["prefix", p], H], ["natab", ab, H]]
+                meta.append(("pconv", base, ab, hz, H))
+            ctx.dist("conversion", how)
+        for _ in range(ctx.scale(100, 1200)):
+            ab = gen.gen_ab(rng, rng.choice([0, 1]), ["periodic", "sporadic", "curve", "extrap", "propagated", "jitter", "sum"], True, False)
+            K = rng.randint(3, 12)
+            base = len(qs)
+            qs += [["dmins", ab, K], ["natab", ab, 400]]
+            meta.append(("dual", base, ab, K))
+        rows = ctx.run(qs)
+        ctx.correspond(rows)
+        for m in meta:
+            if m[0] == "trace":
+                _, base, tr, K, H = m
+                tab = rows[base + 1][1]
+                if not tab or tab[0] != "l": continue
+                cnt = trace_counts(tr, H)
+                bad = [d for d in range(H + 1) if cnt[d] > tab[1][d]]
+                ctx.oracle("trace_windows_are_bounded", not bad, "trace %s prefix_jobs=%d: a window of length %s holds %s events but the inferred curve says %s" %
+                           (tr, K, bad[:1], [cnt[d] for d in bad[:1]], [tab[1][d] for d in bad[:1]]), [rows[base + 1][0]], cls="oracle:trace_undercount")
+            elif m[0] in ("conv", "pconv"):
+                base, ab, H = m[1], m[2], m[4]
+                vec, der, src = rows[base][1], rows[base + 1][1], rows[base + 2][1]
+                if not vec or not der or not src or vec[0] != "l" or der[0] != "l" or src[0] != "l": continue
+                bad = [d for d in range(H + 1) if der[1][d] < src[1][d]]
+                ctx.oracle("derived_dominates_source", not bad, "derived curve is below its source at delta=%s: %s < %s" % (bad[:1], [der[1][d] for d in bad[:1]], [src[1][d] for d in bad[:1]]),
+                           [rows[base + 1][0], rows[base + 2][0]], cls="oracle:conv_below_source")
+                cover = (vec[1][-1] if m[0] == "conv" else vec[1][0]) if vec[1] else 0
+                plateau = m[0] == "conv" and len(vec[1]) >= 2 and vec[1][-1] == vec[1][-2]
+                bad = [d for d in range(min(H, cover) + 1) if der[1][d] != src[1][d]]
+                pcls = "oracle:conv_inexact"
+                if bad and plateau and bad == [cover]: pcls = "oracle:conv_inexact:plateau_at_last"
+                ctx.oracle("derived_exact_on_prefix", not bad, "derived curve differs from its source inside the covered prefix (<= %d) at delta=%s: %s vs %s" %
+                           (cover, bad[:1], [der[1][d] for d in bad[:1]], [src[1][d] for d in bad[:1]]), [rows[base + 1][0], rows[base + 2][0]], cls=pcls)
+            elif m[0] == "dual":
+                _, base, ab, K = m
+                dm, tab = rows[base][1], rows[base + 1][1]
+                if not dm or not tab or dm[0] != "l" or tab[0] != "l": continue
+                pairs = list(zip(dm[1][0::2], dm[1][1::2]))
+                ok = True; why = ""
+                for idx, (n, x) in enumerate(pairs):
+                    if idx < 2:
+                        if (n, x) != (idx, 0): ok = False; why = "first items must be (0,0),(1,0)"
+                        continue
+                    if n != idx: ok = False; why = "job counts must be consecutive"; break
+                    if x + 1 >= len(tab[1]): continue
+                    if not (tab[1][x + 1] >= n and tab[1][x] < n): ok = False; why = "(%d, %d): na(%d)=%d, na(%d)=%d" % (n, x, x + 1, tab[1][x + 1], x, tab[1][x]); break
+                ctx.oracle("delta_min_is_dual_of_number_arrivals", ok, "delta_min_iter %s is not the dual of number_arrivals: %s" % (pairs[:8], why), [rows[base][0]], cls="oracle:dmin_dual")
+        finalize(ctx)
+
+# ============================================================================= C13
+@register("C13")
+class C13(Prop):
+    rule = ("super-additive delta-min prefixes (length 2..6, bursts, plateaus) extended by extrapolate/extrapolate_steps; tables far beyond "
+            "the extrapolated horizon; greedy 'as early as possible' event sequences respecting the original prefix; interleaved "
+            "query histories (number_arrivals / live steps iterators) on clones sharing one cache; non-trivial = distinct query with "
+            "non-zero result")
+    proof_status = "see coverage.theorems"
+    def run(self, ctx):
+        rng = ctx.rng
+        qs = []; meta = []
+        for _ in range(ctx.scale(200, 2500)):
+            for _t in range(50):
+                d = gen.gen_dmin(rng, True, True)
+                if len(d) >= 2: break
+            else: continue
+            c0 = ["dmin", d]
+            if rng.random() < 0.6: ext = ["extrapolate", c0, rng.randint(0, 150)]
+            else: ext = ["extrapolate_steps", c0, rng.randint(0, 25)]
+            H = rng.randint(10, 160)
+            base = len(qs)
+            qs += [["curvevec", ext], ["natab", ["curve", ext], H], ["natab", ["curve", c0], H], ["natab", ["extrap", c0], H],
+                   ["natab", ["curve", ["extrapolate", c0, H + 1]], H], ["steps", ["extrap", c0], H, 100000]]
+            meta.append(("ext", base, d, H))
+        for _ in range(ctx.scale(120, 1500)):
+            q = families.q_hist(rng)[0]
+            c = q[1]
+            base = len(qs); qs.append(q)
+            fresh = []; opened = []
+            counters = []
+            for op in q[2]:
+                if op[0] == "hna": fresh.append(("na", ["na", ["extrap", c], op[2]]))
+                elif op[0] == "hopen": counters.append(0)
+                elif op[0] == "hnext":
+                    fresh.append(("next", counters[op[1]])); counters[op[1]] += 1
+            mx = max([f[1] for f in fresh if f[0] == "next"], default=-1)
+            qs.append(["steps", ["extrap", c], 80 * (mx + 2), mx + 1])
+            nas = [f[1] for f in fresh if f[0] == "na"]
+            qs += nas
+            meta.append(("hist", base, q, fresh, len(nas)))
+        rows = ctx.run(qs)
+        ctx.correspond(rows)
+        for m in meta:
+            if m[0] == "ext":
+                _, base, d, H = m
+                v = [rows[base + i][1] for i in range(6)]
+                if any(x is None or x[0] != "l" for x in v): continue
+                vec, text, torig, tlazy, teager, steps = [list(x[1]) for x in v]
+                Q = [rows[base][0], rows[base + 1][0]]
+                ctx.oracle("prefix_unchanged", vec[:len(d)] == d and all(vec[i] <= vec[i + 1] for i in range(len(vec) - 1)), "extrapolation changed the original prefix %s -> %s" % (d, vec[:len(d) + 2]), Q, cls="oracle:prefix_changed")
+                bad = [x for x in range(0, min(H, d[-1] - 1) + 1) if text[x] != torig[x]]
+                ctx.oracle("values_inside_prefix_unchanged", not bad, "number_arrivals changed inside the original prefix at %s" % bad[:3], Q, cls="oracle:inside_changed")
+                hz = vec[-1]
+                for x in range(0, H + 1):
+                    inside = x < hz or (x == hz and not (len(vec) >= 2 and vec[-1] == vec[-2]))
+                    ctx.dist("tighten_query", "within_horizon" if inside else "beyond_horizon")
+                    if text[x] > torig[x]:
+                        ctx.oracle("only_tightens", False, "prefix %s extrapolated to %s: number_arrivals(%d) = %d exceeds the un-extrapolated curve's %d (%s the extrapolated horizon %d)" %
+                                   (d, vec, x, text[x], torig[x], "within" if inside else "at (plateau-ended vector) or beyond", hz), Q + [rows[base + 2][0]],
+                                   cls="oracle:raises" if inside else "oracle:raises_beyond_horizon")
+                        break
+                else:
+                    ctx.oracle("only_tightens", True, "", Q)
+                es = events_for(["curve", ["dmin", d]], rng, 3 * H + 10, True)
+                cnt = max_window_counts(es, H)
+                bad = [x for x in range(H + 1) if cnt[x] > tlazy[x] or cnt[x] > text[x]]
+                ctx.oracle("still_bounds_sequences_of_the_prefix", not bad, "a sequence respecting %s has %s events in a window of %s but the extrapolated curve allows %s" %
+                           (d, [cnt[x] for x in bad[:1]], bad[:1], [min(tlazy[x], text[x]) for x in bad[:1]]), Q, cls="oracle:ext_undercount", extra=dict(events=es[:100]))
+                ctx.oracle("lazy_equals_eager", tlazy == teager, "ExtrapolatingCurve differs from an eagerly extrapolated Curve: %s vs %s" % (tlazy[:30], teager[:30]), [rows[base + 3][0], rows[base + 4][0]], cls="oracle:lazy_eager")
+                exp = [x for x in range(1, H + 1) if tlazy[x - 1] < tlazy[x]]
+                ctx.oracle("extrapolating_steps", steps == exp, "ExtrapolatingCurve::steps_iter %s vs increase points %s" % (steps[:30], exp[:30]), [rows[base + 5][0]], cls="oracle:lazy_steps")
+            else:
+                _, base, q, fresh, nn = m
+                hv, stepsv = rows[base][1], rows[base + 1][1]
+                nav = [rows[base + 2 + i][1] for i in range(nn)]
+                if not hv or hv[0] != "l" or not stepsv or stepsv[0] != "l" or any(x is None or x[0] != "n" for x in nav): continue
+                exp = []; it = iter(nav)
+                for f in fresh:
+                    if f[0] == "na": exp.append(next(it)[1])
+                    else: exp.append(stepsv[1][f[1]] if f[1] < len(stepsv[1]) else None)
+                ctx.oracle("history_independent", list(hv[1]) == exp, "answers under the query history %s differ from fresh answers %s" % (list(hv[1]), exp), [q], cls="oracle:cache_visible")
+        finalize(ctx)
+KNOWN_PREDICATES["C13-beyond-horizon"] = lambda v: v.get("cls") == "oracle:raises_beyond_horizon"
+KNOWN_PREDICATES["C12-plateau-at-last"] = lambda v: v.get("cls") == "oracle:conv_inexact:plateau_at_last"
